@@ -72,6 +72,12 @@ var (
 )
 
 func sqlServer() (*pgfake.Server, error) {
+	// all ledgers of one server share the bucket's tables: start afresh now and then to keep
+	// the statements fast
+	if sqlSrv != nil && sqlLedgerN%20 == 0 {
+		sqlSrv.Close()
+		sqlSrv = nil
+	}
 	if sqlSrv != nil {
 		return sqlSrv, nil
 	}
